@@ -13,11 +13,11 @@
 (* small-scope coverage next to the random programs of gen_accfg.          *)
 (***************************************************************************)
 EXTENDS Integers, Sequences, TLC
-CONSTANTS NV, MaxNodes, MaxDepth
+CONSTANTS NV, MaxNodes, MaxDepth, WithCalls
 VARIABLES toks, stack, nodes
 vars == <<toks, stack, nodes>>
 
-Leaf == {"C", "S", "R"} \cup {"I" \o ToString(j) : j \in 1..NV}
+Leaf == (IF WithCalls = 1 THEN {"C", "S", "R"} ELSE {}) \cup {"I" \o ToString(j) : j \in 1..NV}
 Init == toks = <<>> /\ stack = <<>> /\ nodes = 0
 
 AddLeaf == \E t \in Leaf :
